@@ -354,8 +354,8 @@ func (sa *sharedAnalysis) fresh(v ssa.Value, in *ssa.Function, depth int) bool {
 			if len(cands) == 0 {
 				return true // only non-repo implementations
 			}
-		} else if s, ok := x.Call.Value.Type().Underlying().(*types.Signature); ok {
-			cands = g.bySig[sigKey(s)]
+		} else if _, ok := x.Call.Value.Type().Underlying().(*types.Signature); ok {
+			cands = g.funcValueTargets(x.Call.Value)
 			if len(cands) == 0 {
 				return false
 			}
@@ -480,9 +480,9 @@ func newSharedAnalysis(c *Ctx) *sharedAnalysis {
 						_ = mc
 					}
 					callees = []*ssa.Function{sc}
-				} else if s, ok := cc.Value.Type().Underlying().(*types.Signature); ok {
+				} else if _, ok := cc.Value.Type().Underlying().(*types.Signature); ok {
 					args = cc.Args
-					callees = g.bySig[sigKey(s)]
+					callees = g.funcValueTargets(cc.Value)
 				}
 				for _, t := range callees {
 					if !sa.reach[t] || len(t.Blocks) == 0 {
@@ -676,6 +676,16 @@ func (sa *sharedAnalysis) s1(rule string, filter func(f *ssa.Function, step stri
 				addr = x.Addr
 			case *ssa.MapUpdate:
 				addr = x.Map
+			case *ssa.Call:
+				// library calls that reorder / overwrite their first argument in place
+				if mutatingExternal[calleeName(&x.Call)] && len(x.Call.Args) > 0 {
+					addr = stripIface(x.Call.Args[0])
+					if _, isBasic := addr.Type().Underlying().(*types.Basic); isBasic {
+						return
+					}
+				} else {
+					return
+				}
 			default:
 				return
 			}
